@@ -94,6 +94,25 @@ def proper_subsequences(h):
 
 
 # ---------------------------------------------------------------------------------------------
+def cohdl_fingerprint():
+    """(files, total size, newest mtime) of the cohdl tree under test.  cohdl reads function sources with
+    inspect.getsource while compiling, so editing the tree during a run makes running interpreters parse
+    shifted source lines and every outcome after that moment is garbage."""
+    import cohdl
+
+    base = os.path.dirname(os.path.abspath(cohdl.__file__))
+    n = size = 0
+    newest = 0.0
+    for dp, dn, fn in os.walk(base):
+        for f in fn:
+            if f.endswith(".py"):
+                st = os.stat(os.path.join(dp, f))
+                n += 1
+                size += st.st_size
+                newest = max(newest, st.st_mtime)
+    return (n, size, newest)
+
+
 def alphabet(run: Run):
     letters = dict(D.LETTERS)
     sel = os.environ.get("VERIF_C11_LETTERS")
@@ -173,26 +192,44 @@ def write_golden(moddir, golden):
     return path
 
 
-def tree_tasks(moddir, letters, order, golden, depths, plen):
-    gfile = write_golden(moddir, golden)
-    for mode, depth in depths.items():
-        for prefix in itertools.product(order, repeat=min(plen, depth)):
-            spec = base_spec(moddir, letters, order)
-            spec.update(mode=mode, prefix=list(prefix), depth=depth, golden_file=gfile)
-            yield {"kind": "tree", "mode": mode, "prefix": list(prefix), "spec": spec, "hashseed": TREE_HASHSEED}
+CORE = ["coro", "syncflag", "prefix", "env3", "env5",
+        "rej_arch", "rej_lowering", "rej_seqctx", "rej_prefix_ctx", "rej_backend"]
 
 
-def tree_depths(run):
-    """complete history length per mode"""
-    d = {"reuse": 4, "fresh": 3} if run.thorough else {"reuse": 3, "fresh": 2}
-    ov = os.environ.get("VERIF_C11_DEPTH")  # development aid only, e.g. "reuse=2,fresh=1"
+def tree_strata(run, order):
+    """(label, mode, alphabet, complete history length, task prefix length, count_min_len).
+    Fork+compile costs ~1500 page faults per node and does not scale with the number of workers on the
+    target VM, so the full alphabet is explored one level less deep than the 10-letter core."""
+    core = [l for l in CORE if l in order]
+    if run.thorough:
+        strata = [("full", "reuse", order, 3, 2, 0), ("full", "fresh", order, 2, 1, 0), ("core", "reuse", core, 4, 2, 4)]
+    else:
+        strata = [("full", "reuse", order, 2, 1, 0), ("full", "fresh", order, 2, 1, 0), ("core", "reuse", core, 3, 1, 3)]
+    ov = os.environ.get("VERIF_C11_DEPTH")  # development aid only, e.g. "full=2,fresh=1,core=3"
     if ov:
-        for part in ov.split(","):
-            k, v = part.split("=")
-            d[k] = int(v)
+        d = dict(part.split("=") for part in ov.split(","))
+        out = []
+        for (label, mode, alpha, depth, plen, cmin) in strata:
+            key = "fresh" if mode == "fresh" else label
+            if key in d:
+                depth = int(d[key])
+                cmin = min(cmin, depth)
+            if depth > 0:
+                out.append((label, mode, alpha, depth, min(plen, depth), cmin))
+        strata = out
         run.capped = True
-        run.note(f"VERIF_C11_DEPTH set: history depth reduced to {d}")
-    return d
+        run.note(f"VERIF_C11_DEPTH set: {ov}")
+    return strata
+
+
+def tree_tasks(moddir, letters, golden, strata):
+    gfile = write_golden(moddir, golden)
+    for (label, mode, alpha, depth, plen, cmin) in strata:
+        for prefix in itertools.product(alpha, repeat=min(plen, depth)):
+            spec = base_spec(moddir, letters, alpha)
+            spec.update(mode=mode, prefix=list(prefix), depth=depth, golden_file=gfile, count_min_len=cmin)
+            yield {"kind": "tree", "mode": mode, "prefix": list(prefix), "spec": spec, "hashseed": TREE_HASHSEED,
+                   "size": len(alpha) ** (depth - len(prefix))}
 
 
 def collect(run, tasks, devs, label):
@@ -221,18 +258,18 @@ def collect(run, tasks, devs, label):
 
 
 def check_tree(run, moddir, letters, order, golden, devs):
-    depths = tree_depths(run)
-    plen = 2 if run.thorough else 1
-    tasks = list(tree_tasks(moddir, letters, order, golden, depths, plen))
-    # largest subtrees first (better load balance)
-    tasks.sort(key=lambda t: -(depths[t["mode"]] - len(t["prefix"])))
+    strata = tree_strata(run, order)
+    tasks = list(tree_tasks(moddir, letters, golden, strata))
+    tasks.sort(key=lambda t: -t["size"])  # largest subtrees first (better load balance)
     got_nodes = collect(run, tasks, devs, "tree")
-    # one root node (empty history) per mode
-    run.count("states", len(MODES))
-    run.coverage_extra["history_depth"] = depths
+    run.count("states", len({(s[1]) for s in strata}))  # one root node (empty history) per mode
+    run.coverage_extra["strata"] = [
+        {"alphabet": label, "mode": mode, "letters": len(alpha), "complete_history_length": depth}
+        for (label, mode, alpha, depth, plen, cmin) in strata]
+    run.coverage_extra["core_alphabet"] = [l for l in CORE if l in order]
     run.coverage_extra["alphabet_size"] = len(order)
-    run.coverage_extra["modes"] = list(MODES)
-    expected_nodes = sum(len(order) ** k for d in depths.values() for k in range(1, d + 1))
+    expected_nodes = sum(len(alpha) ** k for (_, _, alpha, depth, _, cmin) in strata
+                         for k in range(max(1, cmin), depth + 1))
     if got_nodes != expected_nodes and not run.tool_errors:
         run.tool_error(f"history tree incomplete: {got_nodes} nodes executed, expected {expected_nodes}")
     run.coverage_extra["exhaustive"] = got_nodes == expected_nodes
@@ -282,24 +319,26 @@ def check_corpus(run, moddir, letters, order, golden, devs):
     allletters.update(cl)
     tasks = []
     # (a) every rejected letter of the alphabet followed by every accepted corpus design
-    rejected = [l for l in order if not golden[l]["ok"]]
+    rejected = [l for l in order if not golden[l]["ok"] and (run.thorough or l in CORE)]
     for p in rejected:
         for chunk in chunked(acc, 30):
             spec = base_spec(moddir, allletters, [p] + chunk)
             spec.update(order=list(chunk), mode="reuse", prefix=[p], depth=2, golden_file=gfile, count_prefix=False)
             tasks.append({"kind": "corpus", "mode": "reuse", "prefix": [p], "spec": spec, "hashseed": TREE_HASHSEED})
     # (b) quick: every corpus design compiled twice; thorough: every ordered pair of corpus designs
-    for x in acc:
-        succ = acc if run.thorough else [x]
+    for i, x in enumerate(acc):
+        # quick: [X, X]; thorough: [X, X] and [X, Y] for the 8 designs Y following X (cyclically)
+        succ = [acc[(i + j) % len(acc)] for j in range(9)] if run.thorough else [x]
         spec = base_spec(moddir, allletters, sorted(set([x] + succ), key=corder.index))
         spec.update(order=list(succ), mode="reuse", prefix=[x], depth=2, golden_file=gfile)
         tasks.append({"kind": "corpus", "mode": "reuse", "prefix": [x], "spec": spec, "hashseed": TREE_HASHSEED})
     got = collect(run, tasks, devs, "corpus")
-    expected = len(rejected) * len(acc) + len(acc) * (1 + (len(acc) if run.thorough else 1))
+    expected = len(rejected) * len(acc) + len(acc) * (1 + (9 if run.thorough else 1))
     if got != expected and not run.tool_errors:
         run.tool_error(f"corpus stratum incomplete: {got} nodes executed, expected {expected}")
     run.coverage_extra["corpus_stratum"] = ("[rejected letter, X] for all accepted upstream designs X; "
-                                            + ("[X, Y] for all ordered pairs" if run.thorough else "[X, X]"))
+                                            + ("[X, X] and [X, Y] for the 8 designs following X" if run.thorough else "[X, X]")
+                                            + f"; rejected letters used: {rejected}")
 
 
 def report_minimal(run, devs):
@@ -342,6 +381,7 @@ def main(run: Run):
     letters, order = alphabet(run)
     base = "/dev/shm" if os.path.isdir("/dev/shm") else None
     moddir = tempfile.mkdtemp(prefix="verif_c11_", dir=base)
+    fp0 = cohdl_fingerprint()
     try:
         D.write_modules(moddir)
         golden = compute_golden(run, moddir, letters, order)
@@ -379,6 +419,9 @@ def main(run: Run):
             check_tree(run, moddir, letters, order, golden, devs)
         if (only is None or "corpus" in only) and not os.environ.get("VERIF_C11_LETTERS"):
             check_corpus(run, moddir, letters, order, golden, devs)
+        if cohdl_fingerprint() != fp0:
+            run.tool_error("the cohdl source tree was modified while the check was running: outcomes are not "
+                           "trustworthy (cohdl re-reads function sources at compile time); run again")
         report_minimal(run, devs)
         if (only is None or "tree" in only) and run.counters.get("traces_validated_against_impl", 0) < 100 \
                 and not os.environ.get("VERIF_C11_LETTERS"):
